@@ -1,4 +1,5 @@
 """C20 — image stacks survive save/load, and rasterised trees match their geometry (spec/ImageStack.tla)."""
+from harness import lib
 import os, shutil, tempfile, warnings
 from fractions import Fraction
 import numpy as np
@@ -30,7 +31,7 @@ def exec_io(c):
             warnings.simplefilter("ignore")
             if fmt == "tif":
                 kw = {} if c["fdarg"] == "same" else {"dtype": NP[c["fdarg"]]}
-                if c["cid"] % 3 == 0:
+                if lib.vid(c) % 3 == 0:
                     kw["compression"] = False
                 save_tiff(arr, p, **kw)
             elif fmt == "npy":
@@ -62,11 +63,11 @@ def exec_raster(c):
              x=np.array([p[0] for p in pos], dtype=np.float32), y=np.array([p[1] for p in pos], dtype=np.float32),
              z=np.array([p[2] for p in pos], dtype=np.float32), r=np.array(rad, dtype=np.float32))
     res = [Fraction(a, b) for a, b in c["res"]]
-    arg = float(res[0]) if res[0] == res[1] == res[2] and c["cid"] % 2 else [float(r) for r in res]
+    arg = float(res[0]) if res[0] == res[1] == res[2] and lib.vid(c) % 2 else [float(r) for r in res]
     tf = ToImageStack(arg)
     stack = tf(t)
     saved_ok = 1
-    if c["cid"] % 4 == 0:
+    if lib.vid(c) % 4 == 0:
         tmp = tempfile.mkdtemp(prefix="verif_img_")
         try:
             p = os.path.join(tmp, "t.tif")
